@@ -63,7 +63,7 @@ def classes(case):
 SUBS = [
     Sub("shapes", check, enum=_bool.enum_shapes, nontrivial=nontrivial, classes=classes, exhaustive=True),
     Sub("random-no-ctcs", check, gen=lambda tier: _bool.random_models(False), nontrivial=nontrivial,
-        classes=classes, n={"quick": 400, "thorough": 4000}, essential=["forced-by-group"]),
+        classes=classes, n={"quick": 800, "thorough": 6000}, essential=["forced-by-group"]),
     Sub("random-ctcs", check, gen=lambda tier: _bool.random_models(True, 10), nontrivial=nontrivial,
         classes=classes, n={"quick": 200, "thorough": 2500}, essential=["with-ctcs"]),
 ]
